@@ -22,6 +22,17 @@ type c10Scenario struct {
 	Hist   []string `json:"history,omitempty"`
 }
 
+// c10Boundary: cookie values whose hash (FNV-1a, what the implementation uses today) lies within a few
+// dozen of the ends of the 32-bit range or of the 1%, 50% and 99% points. Knowledge of the hash only
+// picks *inputs* here; what is demanded of them is what the statement demands of every value.
+var c10Boundary = []string{
+	"user-183226174", "user-332209710", "user-396717694", "user-467362232", // top of the range
+	"user-119832201", "user-122798007", "user-169745824", "user-66684806", // bottom
+	"user-138398509", "user-17060934", "user-199859412", "user-3879479", // around 1%
+	"user-44604721", "user-46265160", "user-64905848", "user-66933198", // around 50%
+	"user-21702732", "user-24376093", "user-35154380", "user-87116634", // around 99%
+}
+
 var c10Adversarial = []string{"a", "0", "u1", "user-1", "USER_1", "x.y~z", "00000000", "ffffffff", "kamal-rollout", "true", "1e9", strings.Repeat("z", 200)}
 
 func c10Value(rng *rand.Rand) string {
@@ -83,6 +94,11 @@ func c10Gen(rng *rand.Rand, idx int, thorough bool) c10Scenario {
 			sc.Values = append(sc.Values, c10Value(rng))
 		}
 		sc.Values = append(sc.Values, c10Adversarial[rng.IntN(len(c10Adversarial))], c10Adversarial[rng.IntN(len(c10Adversarial))])
+		if idx == 3 || rng.IntN(3) == 0 {
+			sc.Values = append(sc.Values, c10Boundary...)
+		} else {
+			sc.Values = append(sc.Values, c10Boundary[rng.IntN(len(c10Boundary))], c10Boundary[rng.IntN(len(c10Boundary))])
+		}
 		for i := 0; i < rng.IntN(6); i++ {
 			sc.Allow = append(sc.Allow, sc.Values[rng.IntN(len(sc.Values))])
 		}
